@@ -1,14 +1,252 @@
 import Girc.Spec.Sim
 import Girc.Proofs.InvHandlers
+import Girc.Proofs.SimNickAux
 /-
   C04 proofs, part 5: NICK (the same user under a new key, including case-only changes and the
   client's own nick). `st`/`r` are the states AFTER the account-tag step.
 -/
 namespace Girc.Proofs.SimNick
-open Girc Girc.Model Girc.Spec
+open Girc Girc.Model Girc.Spec Girc.Proofs.InvBase Girc.Proofs.InvRename
+
+/-- The client's own nick is not part of anything else the relation talks about. -/
+theorem sim_setNick {st : St} {r : Ref} (h : Sim st r) (n : Bytes) :
+    Sim { st with nick := n } { r with me := n } :=
+  { inv := inv_of_maps_eq st _ h.inv rfl rfl
+    nick := rfl
+    ident := h.ident
+    host := h.host
+    motd := h.motd
+    maxLine := h.maxLine
+    maxPrefix := h.maxPrefix
+    opts := h.opts
+    chans := h.chans
+    chanModesWF := h.chanModesWF
+    users := h.users
+    members := h.members
+    membersKnown := h.membersKnown
+    membersNodup := h.membersNodup
+    perms := h.perms
+    permsKnown := h.permsKnown
+    chanKeysNodup := h.chanKeysNodup
+    userKeysNodup := h.userKeysNodup
+    chanKeysNonempty := h.chanKeysNonempty }
+
+theorem userView_setNick (u : User) (n : Bytes) : userView { u with nick := n } = { userView u with nick := n } := rfl
+
+/-- The tail of `renameUser` on a tracked user, against `rekey`. -/
+theorem sim_renameTail_some {s : St} {r : Ref} (h : Sim s r) {old to : Bytes} {user : User}
+    (hu : AMap.get? s.users old = some user)
+    (ht : fold to = old ∨ AMap.get? s.users (fold to) = none) :
+    ∃ st', renameTail s old to = .ok st' ∧ Sim st' (r.rekey old (fold to) to) := by
+  obtain ⟨cs', hrun, hkeys, hget⟩ := renameTail_some h.inv hu ht
+  refine ⟨_, hrun, ?_⟩
+  have hL := h.inv.toInvL
+  have hL' := invL_rename hL hu ht hkeys hget
+  have hru : AMap.get? r.users old = some (userView user) := by
+    rw [← h.users old, hu]; rfl
+  rw [rekey_some hru]
+  -- the new key is the old one, or unused on the reference side
+  have hnewR : fold to = old ∨ AMap.get? r.users (fold to) = none := by
+    rcases ht with e | hn
+    · exact Or.inl e
+    · refine Or.inr ?_
+      rw [← h.users (fold to), hn]; rfl
+  have hnoMem : fold to = old ∨ ∀ c, (c, fold to) ∉ r.members := by
+    rcases hnewR with e | hn
+    · exact Or.inl e
+    · refine Or.inr (fun c hm => ?_)
+      have := (h.membersKnown c (fold to) hm).2
+      rw [(contains_eq_false_iff _ _).mpr hn] at this
+      cases this
+  have hnoPerm : fold to = old ∨ ∀ p ∈ r.perms, p.1.2 ≠ fold to := by
+    rcases hnewR with e | hn
+    · exact Or.inl e
+    · refine Or.inr (fun p hp e => ?_)
+      have := h.permsKnown p hp
+      rw [e, (contains_eq_false_iff _ _).mpr hn] at this
+      cases this
+  -- lookups in the two new users maps
+  have hus : ∀ n, AMap.get? (AMap.set (AMap.erase s.users old) (fold to) { user with nick := to }) n =
+      if n = fold to then some { user with nick := to } else if n = old then none else AMap.get? s.users n := by
+    intro n; rw [get?_set, get?_erase]
+  have hrs : ∀ n, AMap.get? (AMap.set (AMap.erase r.users old) (fold to) { userView user with nick := to }) n =
+      if n = fold to then some { userView user with nick := to } else if n = old then none else AMap.get? r.users n := by
+    intro n; rw [get?_set, get?_erase]
+  have hknown : ∀ n, (n = fold to ∨ (n ≠ old ∧ AMap.contains r.users n = true)) →
+      AMap.contains (AMap.set (AMap.erase r.users old) (fold to) { userView user with nick := to }) n = true := by
+    intro n hn
+    rw [contains_iff_get?, hrs]
+    by_cases e1 : n = fold to
+    · rw [if_pos e1]; exact ⟨_, rfl⟩
+    · rw [if_neg e1]
+      rcases hn with e | ⟨hne, hc⟩
+      · exact absurd e e1
+      · rw [if_neg hne]; exact (contains_iff_get? _ _).mp hc
+  -- membership in the new channels
+  have hmem : ∀ k ch', AMap.get? cs' k = some ch' → ∀ n,
+      n ∈ ch'.users ↔ ((k, old) ∈ r.members ∧ n = fold to) ∨ ((k, n) ∈ r.members ∧ n ≠ old) := by
+    intro k ch' hk' n
+    obtain ⟨ch, hch, _, hx⟩ := renamed_chan hL hu hget hk'
+    have hm := h.members k ch hch
+    rw [hx n, hm old, hm n]
+    constructor
+    · rintro (⟨a, b⟩ | ⟨a, b⟩)
+      · exact Or.inl ⟨b, a⟩
+      · exact Or.inr ⟨b, a⟩
+    · rintro (⟨a, b⟩ | ⟨a, b⟩)
+      · exact Or.inl ⟨b, a⟩
+      · exact Or.inr ⟨b, a⟩
+  exact {
+    inv := inv_with_maps s hL'
+    nick := h.nick
+    ident := h.ident
+    host := h.host
+    motd := h.motd
+    maxLine := h.maxLine
+    maxPrefix := h.maxPrefix
+    opts := h.opts
+    chans := fun k => by
+      show (AMap.get? cs' k).map chanView = AMap.get? r.chans k
+      rw [hget k, ← h.chans k]
+      split
+      · cases AMap.get? s.channels k with
+        | none => rfl
+        | some ch => show some _ = some _; rw [chanView_renameChan]
+      · rfl
+    chanModesWF := fun k ch' hk' => by
+      obtain ⟨ch, hch, hmodes, _⟩ := renamed_chan hL hu hget hk'
+      rw [hmodes]; exact h.chanModesWF k ch hch
+    users := fun n => by
+      show (AMap.get? (AMap.set (AMap.erase s.users old) (fold to) { user with nick := to }) n).map userView =
+        AMap.get? (AMap.set (AMap.erase r.users old) (fold to) { userView user with nick := to }) n
+      rw [hus, hrs]
+      by_cases e1 : n = fold to
+      · rw [if_pos e1, if_pos e1]; rfl
+      · rw [if_neg e1, if_neg e1]
+        by_cases e2 : n = old
+        · rw [if_pos e2, if_pos e2]; rfl
+        · rw [if_neg e2, if_neg e2]; exact h.users n
+    members := fun k ch' hk' n => by
+      show n ∈ ch'.users ↔ (k, n) ∈ r.members.map (rekeyM old (fold to))
+      rw [mem_map_rekeyM]; exact hmem k ch' hk' n
+    membersKnown := fun k n hkn => by
+      have hkn' : (k, n) ∈ r.members.map (rekeyM old (fold to)) := hkn
+      rw [mem_map_rekeyM] at hkn'
+      rcases hkn' with ⟨hm, e⟩ | ⟨hm, hne⟩
+      · exact ⟨(h.membersKnown k old hm).1, hknown n (Or.inl e)⟩
+      · exact ⟨(h.membersKnown k n hm).1, hknown n (Or.inr ⟨hne, (h.membersKnown k n hm).2⟩)⟩
+    membersNodup := nodup_map_rekeyM h.membersNodup hnoMem
+    perms := fun k n u' hkn hn => by
+      have hkn' : (k, n) ∈ r.members.map (rekeyM old (fold to)) := hkn
+      have hn' : AMap.get? (AMap.set (AMap.erase s.users old) (fold to) { user with nick := to }) n = some u' := hn
+      rw [mem_map_rekeyM] at hkn'
+      rw [hus] at hn'
+      by_cases e1 : n = fold to
+      · -- the renamed user
+        rw [if_pos e1] at hn'
+        cases hn'
+        have hold : (k, old) ∈ r.members := by
+          rcases hkn' with ⟨hm, _⟩ | ⟨hm, hne⟩
+          · exact hm
+          · rcases hnoMem with e | hf
+            · exact absurd (e1.trans e) hne
+            · exact absurd (e1 ▸ hm) (hf k)
+        rw [e1, getPerms_rekey_new k hnoPerm _ rfl]
+        exact h.perms k old user hold hu
+      · rw [if_neg e1] at hn'
+        rcases hkn' with ⟨_, e⟩ | ⟨hm, hne⟩
+        · exact absurd e e1
+        · rw [if_neg hne] at hn'
+          rw [getPerms_rekey_other k hne e1 _ rfl]
+          exact h.perms k n u' hm hn'
+    permsKnown := fun p hp => by
+      have hp' : p ∈ r.perms.map (rekeyP old (fold to)) := hp
+      obtain ⟨⟨⟨c, u⟩, pv⟩, hq, rfl⟩ := List.mem_map.mp hp'
+      by_cases e : u = old
+      · subst e
+        rw [rekeyP_of_eq]
+        exact hknown _ (Or.inl rfl)
+      · rw [rekeyP_of_ne _ _ _ e]
+        exact hknown _ (Or.inr ⟨e, h.permsKnown _ hq⟩)
+    chanKeysNodup := h.chanKeysNodup
+    userKeysNodup := keys_set_nodup (keys_erase_nodup h.userKeysNodup old) _ _
+    chanKeysNonempty := h.chanKeysNonempty }
+
+/-- The tail of `renameUser`, tracked user or not. -/
+theorem sim_renameTail {s : St} {r : Ref} (h : Sim s r) {old to : Bytes}
+    (ht : fold to = old ∨ AMap.get? s.users (fold to) = none) :
+    ∃ st', renameTail s old to = .ok st' ∧ Sim st' (r.rekey old (fold to) to) := by
+  cases hu : AMap.get? s.users old with
+  | none =>
+    refine ⟨s, renameTail_none to hu, ?_⟩
+    have hru : AMap.get? r.users old = none := by rw [← h.users old, hu]; rfl
+    rw [rekey_none hru]
+    exact h
+  | some user => exact sim_renameTail_some h hu ht
+
+/-- What conformance of a NICK message provides. -/
+theorem conformant_NICK {cfg : Cfg} {r : Ref} {e : Event} (hc : r.conformant cfg e = true) (hcmd : e.command = cNICK) :
+    ∃ src p ps, e.source = some src ∧ e.params = p :: ps ∧
+      (fold e.last = fold src.name ∨ r.knownUser e.last = false) := by
+  unfold Ref.conformant at hc
+  simp only [hcmd] at hc
+  rw [if_neg (by decide), if_neg (by decide), if_neg (by decide), if_neg (by decide), if_pos True.intro] at hc
+  rw [Bool.and_eq_true, Bool.and_eq_true] at hc
+  obtain ⟨_, _, hm⟩ := hc
+  cases hs : e.source with
+  | none => rw [hs] at hm; cases hm
+  | some src =>
+    cases hp : e.params with
+    | nil => rw [hs, hp] at hm; cases hm
+    | cons p ps =>
+      refine ⟨src, p, ps, rfl, rfl, ?_⟩
+      rw [hs, hp] at hm
+      simp only [Bool.and_eq_true, Bool.or_eq_true, decide_eq_true_eq, Bool.not_eq_true'] at hm
+      unfold Event.last
+      rw [hp]
+      rcases hm.2 with e | ⟨hk, _⟩
+      · exact Or.inl e
+      · exact Or.inr hk
+
+/-- What a NICK message means. -/
+theorem cmdStep_NICK (cfg : Cfg) (r : Ref) {e : Event} (hcmd : e.command = cNICK) {src : Source} {p : Bytes}
+    {ps : List Bytes} (hs : e.source = some src) (hp : e.params = p :: ps) :
+    r.cmdStep cfg e =
+      (if fold src.name = fold r.me then { r with me := e.last } else r).rekey (fold src.name) (fold e.last) e.last := by
+  unfold Ref.cmdStep
+  simp only [hcmd]
+  rw [if_neg (by decide), if_neg (by decide), if_neg (by decide), if_neg (by decide), if_neg (by decide), if_pos True.intro]
+  rw [hs, hp]
+  unfold Event.last
+  rw [hp]
 
 theorem sim_NICK {st : St} {r : Ref} (cfg : Cfg) (e : Event) (h : Sim st r)
     (hc : r.conformant cfg e = true) (hcmd : e.command = cNICK) :
-    ∃ st', handleNICK st e = .ok st' ∧ Sim st' (r.cmdStep cfg e) := by sorry
+    ∃ st', handleNICK st e = .ok st' ∧ Sim st' (r.cmdStep cfg e) := by
+  obtain ⟨src, p, ps, hs, hp, hnew⟩ := conformant_NICK hc hcmd
+  rw [cmdStep_NICK cfg r hcmd hs hp]
+  have hlen : e.params.length ≥ 1 := by rw [hp]; exact Nat.succ_le_succ (Nat.zero_le _)
+  unfold handleNICK
+  rw [hs]
+  simp only []
+  rw [if_pos hlen, renameUser_eq_tail, fold_idem, h.nick]
+  -- the own-nick update, on both sides
+  have h0 : Sim (if fold src.name = fold r.me then { st with nick := e.last } else st)
+      (if fold src.name = fold r.me then { r with me := e.last } else r) := by
+    split
+    · exact sim_setNick h e.last
+    · exact h
+  apply sim_renameTail h0
+  rcases hnew with e1 | hk
+  · exact Or.inl e1
+  · refine Or.inr ?_
+    have hr : AMap.get? r.users (fold e.last) = none := (contains_eq_false_iff _ _).mp hk
+    have hu : AMap.get? st.users (fold e.last) = none := by
+      have := h.users (fold e.last)
+      rw [hr] at this
+      exact Option.map_eq_none_iff.mp this
+    split
+    · exact hu
+    · exact hu
 
 end Girc.Proofs.SimNick
